@@ -87,6 +87,16 @@ func genSignCase(t *core.Tape, uniq string, mods []string) *signCase {
 	case "jar":
 		c.File = "lib" + uniq + ".jar"
 		c.Input = makeJar(uniq, t.Choose(4, "jar-members"))
+		switch core.Pick(t, "jar-flag", "", "", "sections-only", "inline-signature", "apk-v2-present", "key-alias") {
+		case "sections-only":
+			c.Flags.Set("sections-only", "true")
+		case "inline-signature":
+			c.Flags.Set("inline-signature", "true")
+		case "apk-v2-present":
+			c.Flags.Set("apk-v2-present", "true")
+		case "key-alias":
+			c.Flags.Set("key-alias", "ALIAS"+uniq)
+		}
 	case "cat":
 		c.File = "c" + uniq + ".cat"
 		c.Input = repoFixture("hyperv.cat")
@@ -97,6 +107,12 @@ func genSignCase(t *core.Tape, uniq string, mods []string) *signCase {
 		c.File = "lib" + uniq + ".dll"
 		c.Input = append([]byte(nil), repoFixture("ClassLibrary1.dll")...)
 		copy(c.Input[0x400:], []byte("verif:"+uniq)) // inside .text raw data: digest becomes unique, structure untouched
+		if t.Chance(1, 3, "page-hashes") && (c.Hash == crypto.SHA1 || c.Hash == crypto.SHA256) {
+			c.Flags.Set("page-hashes", "true") // page hashes exist for SHA-1 and SHA-256 only
+		}
+		if t.Chance(1, 4, "opus") {
+			c.Flags.Set("description", "name-"+uniq)
+		}
 	case "apk":
 		c.File = "app" + uniq + ".apk"
 		c.Input = repoFixture("dummy.apk")
@@ -132,6 +148,9 @@ func genSignCase(t *core.Tape, uniq string, mods []string) *signCase {
 	case "msi":
 		c.File = "pkg" + uniq + ".msi"
 		c.Input = repoFixture("dummy.msi")
+		if t.Chance(1, 3, "no-extended-sig") {
+			c.Flags.Set("no-extended-sig", "true")
+		}
 		if t.Chance(1, 2, "msi-alias") {
 			c.SigType = "msi-tar"
 		}
